@@ -111,3 +111,28 @@ Theorem qmtp_recipient_buffer_safe : forall (len biglen : Z) (relayclient : opti
   rcpt_decide len biglen relayclient = RAccept ws -> forall k : Z, in_writes k ws -> 0 <= k < 1000.
 Proof. exact rcpt_decide_safe. Qed.
 Print Assumptions qmtp_recipient_buffer_safe.
+
+(* ---- dns.c: the walk over a resolver response (Mem/DnsParse.v) ----
+   Every index the code reads directly is returned by the model; dn_expand() is libc's and enters with its contract
+   (it refuses a source outside the response and consumes only bytes inside it). *)
+From NQ Require Mem.DnsParse Mem.DnsParseProofs.
+Theorem dns_response_walk_reads_inside : forall buf rlen dn, DnsParseProofs.byte_buf buf -> DnsParse.dn_contract rlen dn ->
+  forall k want s0 hdr rs rd,
+  DnsParse.resolve_walk buf rlen dn = (Some s0, hdr) ->
+  DnsParse.walk buf rlen dn true (S (Z.to_nat (DnsParse.numanswers s0))) k want s0 = (rs, rd) ->
+  Forall (fun x => (0 <= x < DnsParse.HFIXEDSZ)%Z) hdr /\ Forall (DnsParseProofs.in_resp rlen) rd.
+Proof. exact DnsParseProofs.response_walk_reads_inside. Qed.
+Print Assumptions dns_response_walk_reads_inside.
+Theorem dns_walk_ends : forall buf rlen dn fx k want fuel s rs rd, (Z.to_nat (DnsParse.numanswers s) < fuel)%nat ->
+  DnsParse.walk buf rlen dn fx fuel k want s = (rs, rd) -> exists pre, rs = pre ++ [DnsParse.FEnd] \/ rs = pre ++ [DnsParse.FSoft].
+Proof. exact DnsParseProofs.walk_ends. Qed.
+Print Assumptions dns_walk_ends.
+(* the code as it was before "fix: dns.c findip/findmx read record data past the end of the response" *)
+Theorem dns_unfixed_code_reads_past_the_response :
+  option_map (fun w => existsb (fun x => (23 <=? x)%Z) (snd w)) (DnsParseProofs.reads_of false) = Some true.
+Proof. exact DnsParseProofs.unfixed_code_reads_past_the_response. Qed.
+Print Assumptions dns_unfixed_code_reads_past_the_response.
+Theorem dns_simple_names_meet_the_contract : forall buf rlen fuel, DnsParseProofs.byte_buf buf ->
+  DnsParse.dn_contract rlen (fun p => DnsParse.dn_simple_from fuel buf rlen p true).
+Proof. exact DnsParseProofs.dn_simple_meets_contract. Qed.
+Print Assumptions dns_simple_names_meet_the_contract.
